@@ -339,10 +339,17 @@ func NewListener(
 		})
 	case agd.ProtoDNSCrypt:
 		dcConf := s.DNSCrypt
+
+		var maxUDPRespSize uint16
+		if udpConf := s.UDPConf; udpConf != nil {
+			maxUDPRespSize = udpConf.MaxRespSize
+		}
+
 		l = dnsserver.NewServerDNSCrypt(dnsserver.ConfigDNSCrypt{
 			ConfigBase:           baseConf,
 			DNSCryptProviderName: dcConf.ProviderName,
 			DNSCryptResolverCert: dcConf.Cert,
+			MaxUDPRespSize:       maxUDPRespSize,
 		})
 	case agd.ProtoDoH:
 		l = dnsserver.NewServerHTTPS(dnsserver.ConfigHTTPS{
